@@ -1,4 +1,4 @@
-(* C02X -- property theorems of the expression / collection tranche of C02 (development / standalone copy;
+(* C02_expr_check -- property theorems of the expression / collection tranche of C02 (development / standalone copy;
    the coordinator appends coq/props/C02_expr.v.part to coq/props/C02.v).
    Property theorems only; every proof is `exact <lemma>`; Print Assumptions under each. *)
 From Coq Require Import List ZArith Bool Lia Permutation.
